@@ -301,8 +301,9 @@ class Sim:
         if not fates:
             self.dropped_datagrams.append((x, now))
         src = self.ep[x].addr
+        extra = self.cfg.get("s2c_extra_delay", 0.0) if (x == "s" and now < self.adv_end) else 0.0  # an asymmetric path: the way back is slower
         for _, delay in fates:
-            self.push(now + delay, "rx", peer, data, src, addr)
+            self.push(now + delay + extra, "rx", peer, data, src, addr)
 
     # ------------------------------------------------------------------ server front door
     def server_receive(self, data, src, now):
